@@ -1182,7 +1182,7 @@ class Interp(Engine):
             r = z3.Int("ofm_r")
             for name, arr in st.heap.items():
                 a0 = ctx.pre_heap.get(name)
-                if a0 is None or z3.eq(a0, arr) or name.startswith("G:"):
+                if a0 is None or z3.eq(a0, arr) or name.startswith("G:") or "@oldview" in name:
                     continue
                 conj.append(qforall([r], z3.Implies(z3.And(0 <= r, r < ctx.pre_nref), arr[r] == a0[r]), patterns=[arr[r], a0[r]]))
             return SV(KBool, z3.And(conj) if conj else z3.BoolVal(True))
